@@ -426,6 +426,15 @@ class Engine:
                     if mv is not _MISSING:
                         yield st, mv
                         return
+                gid = getattr(h, 'ghost_id', None)
+                if h.cls is None and gid and self.registry is not None:
+                    # abstract (native / opaque) object: its methods exist only as contracts  <class>.<method>
+                    q = gid + '.' + attr
+                    hook = self.registry.call_hook(self, q, st)
+                    if hook is not None:
+                        yield st, BoundV(base, BuiltinV(q, hook))
+                        return
+                    raise Unsupported('abstract object %s has no contract for .%s' % (gid, attr))
                 sink.append(('raise', st, exc(AttributeError, attr)))
                 return
             mv = self.models.container_attr(self, st, base, h, attr)
